@@ -66,6 +66,187 @@ theorem default_layer_empty_when_filtered_out (r : Request) (d : ALayer) (rest :
   unfold restrictLayers
   simp [List.filter, hsel, hinc, hany]
 
+
+/-! ### the file-level theorem -/
+
+/-- layer directories in `layercontents.plist` are plain names (what norad writes): the name the loaded layer
+    keeps (`file_name()` of the joined path) is the string the filter saw -/
+def PlainLayerDirs (P : Parser β) (fs : FS β) (t : APath) : Prop :=
+  ∀ lc, readParsed fs (sub t "layercontents.plist") P.layercontents "layercontents.plist" = .ok lc →
+    ∀ e ∈ lc, lastName (joinRel (tC t) (Path.parse e.2)) = some e.2
+
+/-- **`partial_eq_restricted_full`** (format-3 trees).  If the full load of `t` succeeds with `f`, then the load with
+    ANY request `r` — six switches, `all` / default-only / arbitrary custom layer predicate — succeeds too and
+    yields exactly `restrict r f`: un-requested parts replaced by their empty defaults (without `lib` the
+    guideline libs go as well), the selected layers in file order behind the default layer, the default layer
+    replaced by the empty placeholder when it was filtered out, un-requested stores empty.
+    Guards: one layer in `glyphs` (C06's invariant), plain layer directory names. -/
+theorem partial_eq_restricted_full (P : Parser β) (fs : FS β) (t : APath) (r : Request) (f : AFont β)
+    (hfull : loadImpl P fs t Request.everything = .ok f)
+    (hone : ∀ x ∈ f.layers.tail, isDefaultLayer x = false)
+    (hplain : PlainLayerDirs P fs t) :
+    loadImpl P fs t r = .ok (restrict r f) := by
+  unfold loadImpl at hfull ⊢
+  cases hs : loadScalars P fs t Request.everything with
+  | error e => simp [hs] at hfull
+  | ok sc =>
+    cases hl : loadLayerSet P fs t Request.everything with
+    | error e => simp [hs, hl] at hfull
+    | ok layers =>
+      cases hd : loadStore Request.everything.data .data fs t with
+      | error e => simp [hs, hl, hd] at hfull
+      | ok data =>
+        cases hi : loadStore Request.everything.images .images fs t with
+        | error e => simp [hs, hl, hd, hi] at hfull
+        | ok images =>
+          simp only [hs, hl, hd, hi] at hfull
+          cases hfull
+          have hd' : loadStore true .data fs t = .ok data := hd
+          have hi' : loadStore true .images fs t = .ok images := hi
+          rw [loadScalars_restrict r hs, loadLayerSet_restrict r hl hone hplain,
+            loadStore_of_true hd' r.data, loadStore_of_true hi' r.images]
+          simp only [restrict, restrictScalars, stripLibs]
+
+/-- **`partial_succeeds_if_full_does`** -/
+theorem partial_succeeds_if_full_does (P : Parser β) (fs : FS β) (t : APath) (r : Request) (f : AFont β)
+    (hfull : loadImpl P fs t Request.everything = .ok f)
+    (hone : ∀ x ∈ f.layers.tail, isDefaultLayer x = false) (hplain : PlainLayerDirs P fs t) :
+    ∃ f', loadImpl P fs t r = .ok f' :=
+  ⟨_, partial_eq_restricted_full P fs t r f hfull hone hplain⟩
+
+
+
+/-! ### un-requested files are not read -/
+
+/-- the two file systems answer `exists` and `read` on this path alike -/
+def SameFile (fs₁ fs₂ : FS β) (cs : List Path.Comp) : Prop :=
+  existsAt fs₁ cs = existsAt fs₂ cs ∧ readFile fs₁ cs = readFile fs₂ cs
+
+/-- `fs₁` and `fs₂` agree on everything the request `r` makes the loader look at: the UFO directory itself,
+    metainfo / fontinfo / layercontents (always read), the single files of the requested parts, the selected
+    layers, the listing of the requested stores.  Nothing is assumed about lib / groups / kerning / features files,
+    layer directories and store directories that were not requested: they may be corrupt, missing or different. -/
+structure AgreeOnReadSet (P : Parser β) (t : APath) (r : Request) (fs₁ fs₂ : FS β) : Prop where
+  root : node fs₁ t = node fs₂ t
+  metainfo : SameFile fs₁ fs₂ (sub t "metainfo.plist")
+  fontinfo : SameFile fs₁ fs₂ (sub t "fontinfo.plist")
+  layercontents : SameFile fs₁ fs₂ (sub t "layercontents.plist")
+  lib : r.lib = true → SameFile fs₁ fs₂ (sub t "lib.plist")
+  groups : r.groups = true → SameFile fs₁ fs₂ (sub t "groups.plist")
+  kerning : r.kerning = true → SameFile fs₁ fs₂ (sub t "kerning.plist")
+  features : r.features = true → SameFile fs₁ fs₂ (sub t "features.fea")
+  layers : ∀ n d, shouldLoad r n d = true → loadLayer P fs₁ t n d = loadLayer P fs₂ t n d
+  data : r.data = true → loadStore true .data fs₁ t = loadStore true .data fs₂ t
+  images : r.images = true → loadStore true .images fs₁ t = loadStore true .images fs₂ t
+
+theorem readParsed_same {α : Type} {fs₁ fs₂ : FS β} {cs} (h : SameFile fs₁ fs₂ cs) (parse : β → Option α) (name : String) :
+    readParsed fs₁ cs parse name = readParsed fs₂ cs parse name := by
+  unfold readParsed; rw [h.2]
+
+theorem readOpt_same {α : Type} {fs₁ fs₂ : FS β} {cs} (sw : Bool) (h : sw = true → SameFile fs₁ fs₂ cs)
+    (parse : β → Option α) (name : String) :
+    readOpt sw fs₁ cs parse name = readOpt sw fs₂ cs parse name := by
+  cases sw with
+  | false => simp [readOpt]
+  | true => unfold readOpt; rw [(h rfl).1, readParsed_same (h rfl)]
+
+theorem loadLayers_same {P : Parser β} {t : APath} {r : Request} {fs₁ fs₂ : FS β}
+    (h : ∀ n d, shouldLoad r n d = true → loadLayer P fs₁ t n d = loadLayer P fs₂ t n d) :
+    ∀ lc, loadLayers P fs₁ t r lc = loadLayers P fs₂ t r lc := by
+  intro lc
+  induction lc with
+  | nil => rfl
+  | cons e rest ih =>
+    obtain ⟨n, d⟩ := e
+    unfold loadLayers
+    by_cases hs : shouldLoad r n d = true
+    · simp only [hs, if_true, h n d hs, ih]
+    · simp only [hs, Bool.false_eq_true, if_false, ih]
+
+theorem loadStore_same {kind : StoreKind} {t : APath} {fs₁ fs₂ : FS β} (sw : Bool)
+    (h : sw = true → loadStore true kind fs₁ t = loadStore true kind fs₂ t) :
+    loadStore sw kind fs₁ t = loadStore sw kind fs₂ t := by
+  cases sw with
+  | false => simp [loadStore]
+  | true => exact h rfl
+
+/-- **`unrequested_files_not_read`**: the load gives the same result — the same font or the same error — on any two
+    file systems that agree on the read set of the request.  Corrupting, removing or adding anything else (the files
+    of un-requested parts, un-selected layer directories, un-requested store directories) cannot matter. -/
+theorem unrequested_files_not_read (P : Parser β) (t : APath) (r : Request) (fs₁ fs₂ : FS β)
+    (h : AgreeOnReadSet P t r fs₁ fs₂) : loadImpl P fs₁ t r = loadImpl P fs₂ t r := by
+  have hsc : loadScalars P fs₁ t r = loadScalars P fs₂ t r := by
+    unfold loadScalars libStage groupsStage tokStage
+    rw [h.root, h.metainfo.1, readParsed_same h.metainfo, readOpt_same r.lib h.lib,
+      readOpt_same true (fun _ => h.fontinfo), readOpt_same r.groups h.groups,
+      readOpt_same r.kerning h.kerning, readOpt_same r.features h.features]
+  have hls : loadLayerSet P fs₁ t r = loadLayerSet P fs₂ t r := by
+    unfold loadLayerSet
+    simp only
+    rw [h.layercontents.1, readParsed_same h.layercontents]
+    cases readParsed fs₂ (sub t "layercontents.plist") P.layercontents "layercontents.plist" with
+    | error e => rfl
+    | ok lc => simp only [loadLayers_same h.layers lc]
+  unfold loadImpl
+  rw [hsc, hls, loadStore_same r.data h.data, loadStore_same r.images h.images]
+
+/-- the agreement relation is reflexive (so the hypothesis is satisfiable), and for the empty request it does not
+    mention a single optional file, layer directory or store directory -/
+theorem agreeOnReadSet_refl (P : Parser β) (t : APath) (r : Request) (fs : FS β) : AgreeOnReadSet P t r fs fs :=
+  ⟨rfl, ⟨rfl, rfl⟩, ⟨rfl, rfl⟩, ⟨rfl, rfl⟩, fun _ => ⟨rfl, rfl⟩, fun _ => ⟨rfl, rfl⟩, fun _ => ⟨rfl, rfl⟩,
+   fun _ => ⟨rfl, rfl⟩, fun _ _ _ => rfl, fun _ => rfl, fun _ => rfl⟩
+
+def nothing : Request :=
+  { lib := false, groups := false, kerning := false, features := false, data := false, images := false,
+    all := false, loadDefault := false, custom := none }
+
+example (P : Parser β) (t : APath) (fs₁ fs₂ : FS β)
+    (hroot : node fs₁ t = node fs₂ t) (hm : SameFile fs₁ fs₂ (sub t "metainfo.plist"))
+    (hi : SameFile fs₁ fs₂ (sub t "fontinfo.plist")) (hl : SameFile fs₁ fs₂ (sub t "layercontents.plist")) :
+    loadImpl P fs₁ t nothing = loadImpl P fs₂ t nothing :=
+  unrequested_files_not_read P t nothing fs₁ fs₂
+    ⟨hroot, hm, hi, hl, fun h => (by cases h), fun h => (by cases h), fun h => (by cases h), fun h => (by cases h),
+     fun n d h => (by simp [shouldLoad, nothing] at h), fun h => (by cases h), fun h => (by cases h)⟩
+
+/-! ### non-vacuity of the file-level theorem -/
+
+def P0 : Parser Nat where
+  metainfo _ := some (3, 1)
+  lib _ := none
+  fontinfo _ := none
+  groups _ := some (2, true)
+  kerning _ := none
+  features _ := none
+  layercontents _ := some [("bg".toList, "glyphs.bg".toList), ("public.default".toList, "glyphs".toList)]
+  contents _ := some []
+  layerinfo _ := none
+  glif _ := none
+
+def fs0 : FS Nat :=
+  [(["t".toList], .dir), (["t".toList, "metainfo.plist".toList], .file 0),
+   (["t".toList, "groups.plist".toList], .file 0),
+   (["t".toList, "layercontents.plist".toList], .file 0),
+   (["t".toList, "glyphs".toList], .dir), (["t".toList, "glyphs".toList, "contents.plist".toList], .file 0),
+   (["t".toList, "glyphs.bg".toList], .dir), (["t".toList, "glyphs.bg".toList, "contents.plist".toList], .file 0)]
+
+def bgOnly : Request :=
+  { lib := false, groups := false, kerning := false, features := false, data := false, images := false,
+    all := false, loadDefault := false, custom := some fun n _ => n == "bg".toList }
+
+/-- the hypotheses are satisfiable, and the conclusion is what one expects: groups gone, the background layer kept,
+    the default layer replaced by the placeholder in front -/
+example : ∃ f, loadImpl P0 fs0 ["t".toList] Request.everything = .ok f ∧
+    (∀ x ∈ f.layers.tail, isDefaultLayer x = false) ∧ PlainLayerDirs P0 fs0 ["t".toList] ∧
+    f.groups = 2 ∧ (restrict bgOnly f).groups = 0 ∧
+    (restrict bgOnly f).layers.map (·.name) = ["public.default".toList, "bg".toList] := by
+  refine ⟨_, rfl, by decide, ?_, rfl, rfl, by decide⟩
+  intro lc h
+  have hrp : readParsed fs0 (sub ["t".toList] "layercontents.plist") P0.layercontents "layercontents.plist" =
+      .ok [("bg".toList, "glyphs.bg".toList), ("public.default".toList, "glyphs".toList)] := by rfl
+  rw [hrp] at h
+  cases h
+  decide
+
 /-! ### non-vacuity: `none().filter_layers(|_,_| true)` on a two-layer font (the repaired defect) -/
 
 def l0 : ALayer := { name := "public.default".toList, dir := "glyphs".toList, info := 0, entries := [] }
